@@ -161,6 +161,21 @@ CHECKS = {
         "ambiguity excluded; K8 (meta attribute order) attributed by its "
         "trigger.",
         "DESIGN.md 3/C17"),
+    "C19": (
+        "exploration",
+        "differential strict vs non-strict + planted invalid expressions "
+        "with known offsets + reachability from the reference interpreter",
+        "Valid TALES-rich templates must render identically (text, call log, "
+        "exception class) under strict=True and strict=False. Templates with "
+        "1..3 uniquely marked invalid expressions at random sites must fail "
+        "at construction under strict=True with an ExpressionError pointing "
+        "at a planted text, and under strict=False must construct and raise "
+        "that ExpressionError (same token text, offset pointing at it) iff "
+        "the reference interpreter reaches a planted site - otherwise the "
+        "output must equal the model's.",
+        "Reachability is decided by vlib/tmodel.py; K7 attributed only via "
+        "its deviation model; offsets after entities are left to C11.",
+        "DESIGN.md 3/C19"),
     "C20": (
         "exploration",
         "Hypothesis part-list generation with constructive expected output "
